@@ -63,7 +63,19 @@ def check(run, driver):
                             base = rng.uniform(0, 2, size=(N, kx + ky + kz)) @ (mix if rep % 4 == 1 and info != "kde" else np.eye(kx + ky + kz))   # platykurtic data: KDE terms can be negative
                         else:
                             base = rng.standard_normal((N, kx + ky + kz)) @ mix
+                    if info == "gaussian" and np.linalg.cond(np.corrcoef(base.T)) > 1e4:
+                        # a nearly singular sample correlation (6 columns, a dozen rows) amplifies rounding by its condition number:
+                        # "unchanged up to rounding" cannot be judged at 1e-9 there
+                        run.skip("gaussian: ill-conditioned sample correlation (cond > 1e4)"); continue
                     X, Y, Z = base[:, :kx], base[:, kx:kx + ky], (base[:, kx + ky:] if cond else None)
+                    # arguments of different dtypes (single next to double precision; integer counts next to continuous measurements):
+                    # the sample is the same whichever argument position a block is passed in
+                    # (single precision only for the estimators that compute in double whatever they are given; the geometric and KDE
+                    #  estimators work in the precision of their input, where "up to rounding" means float32 rounding, not 1e-9)
+                    if datakind == "continuous" and rep % 2 == 1 and info in ("gaussian", "knn"):
+                        X = X.astype(np.float32)
+                    elif datakind == "count" and info == "gaussian" and rep % 2 == 1:
+                        X = X.astype(np.int64); Y = Y + 0.3 * rng.standard_normal(Y.shape)
                     st = {"metric": ["euclidean", "cityblock", "chebyshev"][rep % 3], "k": int(rng.integers(1, 5)), "bandwidth": ["silverman", "scott", 0.6][rep % 3]}
                     path = "Z given" if cond else "Z is None"
                     fns = {"function": lambda a, b, c: float(direct[(info, cond)](a, b, c, st)),
